@@ -196,3 +196,103 @@ Section SelectRepair.
     apply (run_of_rel Tsel want must); [|exact F]. unfold Tsel. apply NoDup_map_filter. exact paths_distinct.
   Qed.
 End SelectRepair.
+
+(* ---------- (3') the same for the whole-file tool ---------- *)
+Lemma Forall2_filter_map {A B C} (R : A -> C -> Prop) (ka : A -> bool) (kb : B -> bool) (r : B -> C) :
+  forall la lb, Forall2 (fun a b => kb b = ka a /\ R a (r b)) la lb -> Forall2 R (filter ka la) (map r (filter kb lb)).
+Proof.
+  induction 1 as [|a b la lb [K H] F IH]; [constructor|]. cbn [filter]. rewrite K.
+  destruct (ka a); [cbn [map]; constructor; assumption|exact IH].
+Qed.
+
+Section SelectRepairW.
+  Variable T : list (list byte * list byte).
+  Variable want : list byte * list byte -> list byte.
+  Variable must : list byte * list byte -> Prop.
+  Variables marker delim : list byte.
+  Variable ignore_size : bool.
+  Variable look : list byte -> option (list byte).
+  Variable intra : list byte -> list byte -> list byte.
+  Variable window : nat.
+  Variable blocksW : list byte -> nat -> nat -> Z -> list byte -> bres * nat.
+  Variable enc : list byte -> list byte.
+  Variable track : list byte -> list byte.
+  Variable preamble : list byte.
+  Variable dmg : list byte * list byte -> list byte.
+  Variable L : list (list byte).
+
+  Notation gen_entry := (gen_entry delim enc track).
+  Notation db := (generate marker delim enc track preamble T).
+
+  Hypothesis L_ne : L <> [].
+  Hypothesis marker_ne : marker <> [].
+  Hypothesis unambiguous_markers : clean_pieces marker (preamble :: map gen_entry T).
+  Hypothesis unambiguous_fields : forall f, In f T ->
+    prefixb delim (fst f ++ delim) = false /\ clean_mid delim (fst f) /\ clean_mid delim (size_of f) /\
+    clean_mid delim (enc (fst f)) /\ clean_mid delim (enc (size_of f)).
+  Hypothesis intra_roundtrip : forall f, In f T ->
+    intra (fst f) (enc (fst f)) = fst f /\ intra (size_of f) (enc (size_of f)) = size_of f.
+  Hypothesis int_roundtrip : forall f, In f T -> py_int (size_of f) = Some (zlen (snd f)).
+  Hypothesis names_ok : forall f, In f T -> has_nul (fst f) = false.
+  Hypothesis paths_distinct : NoDup (map fst T).
+  Hypothesis tree_present : forall f, In f T -> look (fst f) = Some (dmg f).
+  Hypothesis same_size : forall f, In f T -> length (dmg f) = length (snd f).
+  Hypothesis meta_fits : forall f, In f T -> meta_len delim (fst f) (size_of f) (enc (fst f)) (enc (size_of f)) <= window.
+  Hypothesis blocksW_repairs : forall f d t e, In f T -> sub d t e = track (snd f) -> e - t = length (track (snd f)) ->
+    (fst (blocksW d t e (zlen (snd f)) (dmg f)) = BClean /\ ~ must f) \/
+    fst (blocksW d t e (zlen (snd f)) (dmg f)) = BCorrupt RFull (Some (want f)).
+
+  (* the fields read from the window at the start of a well-formed entry *)
+  Lemma window_fields A R p z pe ze t :
+    prefixb delim (p ++ delim) = false -> clean_mid delim p -> clean_mid delim z -> clean_mid delim pe -> clean_mid delim ze ->
+    meta_len delim p z pe ze <= window ->
+    let c := p ++ delim ++ z ++ delim ++ pe ++ delim ++ ze ++ delim ++ t in
+    exists tr, get_fields delim (sub (A ++ c ++ R) (length A) (length A + window)) =
+               mkFields p z pe ze (Z.of_nat (meta_len delim p z pe ze)) tr.
+  Proof.
+    intros Hs Hp Hz Hpe Hze Hw c. rewrite sub_at.
+    set (M := p ++ delim ++ z ++ delim ++ pe ++ delim ++ ze ++ delim).
+    assert (Ec : c = M ++ t) by (unfold c, M; rewrite <- !app_assoc; reflexivity).
+    assert (LM : length M = meta_len delim p z pe ze) by reflexivity.
+    assert (Ew : firstn window (c ++ R) = M ++ firstn (window - length M) (t ++ R)).
+    { rewrite Ec, <- app_assoc, firstn_app, firstn_all2 by lia. reflexivity. }
+    rewrite Ew. unfold M. rewrite <- !app_assoc.
+    eexists. apply (get_fields_wf delim p z pe ze _ Hs Hp Hz Hpe Hze).
+  Qed.
+
+  Theorem sel_repair_w : exists rs, Forall2 (rel want must) (Tsel T L) rs /\
+    run_w_sel marker delim ignore_size look intra L window blocksW db =
+      Done (mkC (length (Tsel T L)) (n_full_of rs) (n_full_of rs) 0 0) (outs_of rs) 0.
+  Proof.
+    unfold run_w_sel, results_w_sel, generate. rewrite generate_join.
+    rewrite (scan_join marker preamble _ marker_ne unambiguous_markers).
+    set (D := join marker (preamble :: map gen_entry T)).
+    set (S := spans marker (length preamble + length marker) (map gen_entry T)).
+    set (k := fun se : nat * nat => kept intra L (get_fields delim (sub D (fst se) (fst se + window)))).
+    set (r := fun se : nat * nat => fst (fst (entry_w delim ignore_size look intra window blocksW D (fst se) (snd se)))).
+    rewrite (flat_map_ext_in _ (fun se => if k se then [r se] else []) S) by (intros; reflexivity).
+    rewrite (flat_map_filter r k S).
+    assert (F : Forall2 (rel want must) (Tsel T L) (map r (filter k S))).
+    { unfold Tsel. apply (Forall2_filter_map (rel want must) (fun f => listed L (fst f)) k r).
+      apply Forall2_by_nth; [unfold S; rewrite spans_length, map_length; reflexivity|].
+      intros j a se Ha Hse.
+      assert (Hc : nth_error (map gen_entry T) j = Some (gen_entry a)) by (rewrite nth_error_map, Ha; reflexivity).
+      destruct (spans_decomp marker preamble _ j _ Hc) as (A & Rr & E & N). fold S in N. rewrite N in Hse.
+      inversion Hse; subst se. clear Hse. unfold k, r. cbn [fst snd]. fold D in E. rewrite E.
+      apply nth_error_In in Ha. destruct (unambiguous_fields a Ha) as (Hs & Hp & Hz & Hpe & Hze).
+      unfold Stream.gen_entry. fold (size_of a). split.
+      - destruct (window_fields A Rr _ _ _ _ (track (snd a)) Hs Hp Hz Hpe Hze (meta_fits a Ha)) as (tr & ->).
+        unfold kept. cbn [f_path f_pecc f_size f_secc]. destruct (intra_roundtrip a Ha) as [-> ->]. rewrite (int_roundtrip a Ha).
+        unfold active. destruct L; [contradiction|reflexivity].
+      - destruct (entry_w_wf delim ignore_size look intra window blocksW A Rr _ _ _ _ (track (snd a)) Hs Hp Hz Hpe Hze (meta_fits a Ha)) as [E1 T1].
+        rewrite E1. cbn [fst].
+        rewrite (meta_dmg T ignore_size look intra enc dmg intra_roundtrip int_roundtrip names_ok tree_present same_size a Ha).
+        unfold rel.
+        assert (LE : length A + length (fst a ++ delim ++ size_of a ++ delim ++ enc (fst a) ++ delim ++ enc (size_of a) ++ delim ++ track (snd a))
+                     - (length A + meta_len delim (fst a) (size_of a) (enc (fst a)) (enc (size_of a))) = length (track (snd a))).
+        { unfold meta_len. rewrite !app_length. lia. }
+        destruct (blocksW_repairs a _ _ _ Ha T1 LE) as [[-> NM] | ->]; [left; split; [reflexivity|exact NM]|right; reflexivity]. }
+    exists (map r (filter k S)). split; [exact F|].
+    apply (run_of_rel (Tsel T L) want must); [|exact F]. unfold Tsel. apply NoDup_map_filter. exact paths_distinct.
+  Qed.
+End SelectRepairW.
